@@ -352,6 +352,10 @@ fn hook(kind: u8, lock: usize, site: &'static Location<'static>) {
                 if let Some(sh) = g.as_mut() {
                     sh.holders.entry(lock).or_default().push((me, excl, site));
                     sh.pending[me] = None;
+                    if m == Mode::Jitter {
+                        // observed interleaving: the order in which the workers' acquisitions reached the monitor
+                        sh.trace_hash = (sh.trace_hash ^ (me as u64 + 1)).wrapping_mul(0x0000_0100_0000_01B3);
+                    }
                 }
             }
         }
@@ -581,6 +585,8 @@ pub struct JitterOutcome {
     pub deadlock: Option<DeadlockReport>,
     pub stuck: bool,
     pub events: u64,
+    /// hash of the order in which the workers' lock acquisitions were observed
+    pub trace_hash: u64,
 }
 
 /// Runs `progs` free-running with jitter.  If no lock event happens for `stall_ms` of real time
@@ -696,12 +702,15 @@ pub fn run_jitter(seed: u64, level: u64, stall_ms: u64, progs: Vec<Box<dyn FnOnc
         }
     }
     let events = EVENTS.load(Ordering::SeqCst) - ev0;
+    let mut trace_hash = SH.lock().unwrap().as_ref().map_or(0, |sh| sh.trace_hash);
     if deadlock.is_none() && !stuck {
         for h in handles {
             let _ = h.join();
         }
         MODE.store(Mode::Track as u8, Ordering::SeqCst);
-        *SH.lock().unwrap() = None;
+        let mut g = SH.lock().unwrap();
+        trace_hash = g.as_ref().map_or(trace_hash, |sh| sh.trace_hash);
+        *g = None;
     }
-    JitterOutcome { deadlock, stuck, events }
+    JitterOutcome { deadlock, stuck, events, trace_hash }
 }
